@@ -85,7 +85,7 @@ DICT = {
   "imsc": [' timeContainer="seq"', ' tts:ruby="text"', ' tts:ruby="container"', ' begin="1f"', ' ttp:frameRate="0"', ' dur="1t"', ' end="-1s"',
            ' tts:extent="auto"', ' tts:fontSize="1x"', ' tts:textShadow="1px"', ' style="nope"', ' style="s0"', ' style="s1 s0"', ' region="nope"', "<br/>", "<set/>", "</p>",
            "<span>", ' xml:space="preserve"', ' tts:position="center"', ' tts:direction="AUTO"', ' ttp:cellResolution="0 0"',
-           ' tts:lineHeight="125%"', ' ittp:activeArea="1% 2% 300% 4%"', ' ttp:tickRate="0"', "&#0;", "<!-- c -->", "<?pi?>",
+           ' tts:lineHeight="125%"', ' ittp:activeArea="1% 2% 300% 4%"', ' ttp:tickRate="0"', ' ttp:frameRateMultiplier="1 0"', ' ttp:frameRateMultiplier="0 1"', "&#0;", "<!-- c -->", "<?pi?>",
            ' begin="1.0001s" end="1.0004s"', ' begin="1.0006s" end="1.0012s"', ' dur="0.0007s"', '<set tts:color="red" dur="1s"/>', ' end="0.0003s"', ' tts:display="block"', ' tts:textAlign="justify"', ' tts:writingMode="x"',
            ' begin="1f" ttp:frameRate="0"', ' tts:textShadow="1px 1px"', ' tts:fontFamily="X"', ' tts:origin="1px"', ' tts:padding="1px 2px 3px 4px 5px"'],
 }
@@ -507,6 +507,9 @@ CATALOG = [
   ("scc", b"Scenarist_SCC V1.0\n\n00:00:00:00\t\t9420\n"), ("scc", b"Scenarist_SCC V1.0\n\n99:99:99:99\t9420 942f\n"),
   ("scc", b"Scenarist_SCC V1.0\n\n00:00:00:00\tc1c2 c3c4\n\n00:00:01:00\t942f\n"), ("scc", b"Scenarist_SCC V1.0\n\n00:00:00:00\t9425 94ad 9421 9421 9421 c1c2 94ad\n"),
   ("scc", b"Scenarist_SCC V1.0\n\n00:00:00;00\t9429 9429 97a1 c1c2 942c\n"),
+  # paint-on text flipped out and back in by end-of-caption codes; mid-row codes with no caption being composed
+  ("scc", b"Scenarist_SCC V1.0\n\n00:00:00:11\t9429 2080\n\n00:00:00:22\t942f 942f 942f\n"),
+  ("scc", b"Scenarist_SCC V1.0\n\n00:00:01:00\t9429 9429 91ae 91ae 9120 9120\n\n00:00:02:00\t9425 9425 942c 942c 91ae 9120 91ae\n"),
   ("scc", b"Scenarist_SCC V1.0\n\n00:00:00:00\t9429 9429 9421 9421 c1c2\n"), ("scc", b"Scenarist_SCC V1.0\n\n00:00:00:00\t9420 9420 1220 1220\n"),
   ("srt", b"1\n00:00:01,000 --> 00:00:02,000\n<![foo]>x\n"), ("srt", b"1\n00:00:01,000 --> 00:00:02,000\na<![ b <!-- c --> <?d?> <!DOCTYPE e [\n"),
   ("srt", b"1\n00:00:01,000 --> 00:00:02,000\n<font color>x</font>\n"), ("srt", b"1\n00:00:01,000 --> 00:00:02,000\n<font color=>x</font><b =>y\n"),
@@ -527,6 +530,8 @@ CATALOG = [
   ("imsc", (TT % ("", "<body><div timeContainer=\"seq\"><p>a</p><p>b</p></div></body>")).encode()),
   ("imsc", (TT % (' ttp:frameRate="0"', "<body><div><p begin=\"1f\" end=\"10f\">a</p></div></body>")).encode()),
   ("imsc", (TT % (' ttp:tickRate="0"', "<body><div><p begin=\"1t\">a</p></div></body>")).encode()),
+  ("imsc", (TT % (' ttp:frameRateMultiplier="1 0"', "<body><div><p begin=\"10f\" end=\"20f\">a</p></div></body>")).encode()),
+  ("imsc", (TT % (' ttp:frameRate="25" ttp:frameRateMultiplier="0 1"', "<body><div><p begin=\"00:00:01:10\" end=\"20f\">a</p></div></body>")).encode()),
   ("imsc", (TT % ("", "<body><div><p begin=\"1.0001s\" end=\"1.0004s\">a</p><p begin=\"1.0004s\" end=\"1.0006s\">b</p></div></body>")).encode()),
   ("imsc", (TT % ("", "<body><div><p>a<br tts:lineHeight=\"125%\" tts:padding=\"1em\" tts:position=\"center\"/>b</p></div></body>")).encode()),
   ("imsc", (TT % (' tts:extent="1920px"', "<body/>")).encode()), ("imsc", (TT % (' tts:extent="a b" ittp:activeArea="1 2 3 4" ttp:cellResolution="0 0"', "<body/>")).encode()),
